@@ -89,15 +89,19 @@ fn check_seq(s: &Seq, groups: &[usize], obj: &Obj, who: &str) -> Result<(), (Str
     Ok(())
 }
 
-fn helper_case(r: &mut Rng, kind: u64) -> Case {
+fn helper_case(r: &mut Rng, kind: u64) -> Case { helper_case_with(r, kind, None) }
+
+/// `fixed`: frames with fragment sizes and the Number of Frames attribute to put (None = absent)
+fn helper_case_with(r: &mut Rng, kind: u64, fixed: Option<(Vec<(Vec<u8>, u32)>, Option<u32>)>) -> Case {
     // frames: (data, fragment size)
     let pool_fs = |r: &mut Rng, len: usize| -> u32 { match r.below(8) { 0 => 0, 1 => 1, 2 => 2, 3 => len as u32, 4 => len as u32 + 1, 5 => len.saturating_sub(1) as u32, 6 => r.range(1, 9) as u32, _ => r.range(1, 40) as u32 } };
     let data = |r: &mut Rng| -> Vec<u8> { let n = match r.below(60) { 0 => 0, 1..=5 => 1, 6..=10 => 2, _ => r.range(1, 24) } as usize; (0..n).map(|_| r.range(1, 255) as u8).collect() };
-    let (frames, name): (Vec<(Vec<u8>, u32)>, &str) = match kind {
+    let fixed_nf = fixed.as_ref().map(|f| f.1);
+    let (frames, name): (Vec<(Vec<u8>, u32)>, &str) = if let Some((fr, _)) = fixed { (fr, if kind == 1 { "single" } else { "multi" }) } else { match kind {
         0 => ((0..r.range(1, 16)).map(|_| (data(r), 0)).collect(), "encapsulate"),
         1 => { let d = data(r); let fs = pool_fs(r, d.len()); (vec![(d, fs)], "single") }
         _ => ((0..r.range(1, 5)).map(|_| { let d = data(r); let fs = if r.chance(2, 3) { *r.pick(&[0u32, d.len() as u32, d.len() as u32 + 1, 64]) } else { pool_fs(r, d.len()) }; (d, fs) }).collect(), "multi"),
-    };
+    } };
     let res: Option<Seq> = match kind {
         0 => catch(|| seq_of(encapsulate(frames.iter().map(|f| f.0.clone()).collect()))),
         1 => catch(|| seq_of(encapsulate_single_frame(frames[0].0.clone(), frames[0].1))),
@@ -105,7 +109,8 @@ fn helper_case(r: &mut Rng, kind: u64) -> Case {
                         let s: PixelFragmentSequence<Vec<u8>> = v.into(); (s.offset_table().to_vec(), s.fragments().to_vec()) }),
     };
     let n = frames.len() as u32;
-    let nf = match r.below(10) { 0 => None, 1 => Some(n + 1), 2 => Some(1), _ => Some(n) };
+    // Number of Frames: optional for a single frame (absent in 40% of those cases), else mostly right, sometimes off
+    let nf = match fixed_nf { Some(x) => x, None => if n == 1 { match r.below(10) { 0..=3 => None, 4 => Some(2), _ => Some(1) } } else { match r.below(10) { 0 => None, 1 => Some(n + 1), 2 => Some(1), _ => Some(n) } } };
     let mut q: Vec<u32> = (0..=n).collect(); if r.chance(1, 5) { q.push(n + 3); }
     let (extr, obj) = match &res { Some(s) => { let o = put_seq(s, nf, 1, 1, 1, 8, uids::ENCAPSULATED_UNCOMPRESSED_EXPLICIT_VR_LITTLE_ENDIAN); (extract(&o, &q), Some(o)) } None => (vec![], None) };
     let coq = format!("(KHelper {} {} {} {})",
@@ -128,13 +133,14 @@ fn helper_case(r: &mut Rng, kind: u64) -> Case {
             }
             if k != s.1.len() && bad.is_none() { bad = Some(("FragmentsPreserve".into(), format!("{} fragments, expected {}", s.1.len(), k))); }
             if bad.is_none() { if let Err(e) = check_seq(s, &groups, o, name) { bad = Some(e); } }
-            if bad.is_none() && nf == Some(n) { for (f, got) in &extr { if *f < n && got.as_ref() != Some(&frame_bytes[*f as usize]) { bad = Some(("FrameExtract".into(), format!("frame_pixel_data({f}) = {:?}", got.as_ref().map(|v| v.len())))); break; } } }
+            // Number of Frames is optional for single-frame images: an object without it holds one frame
+            if bad.is_none() && (nf == Some(n) || (nf.is_none() && n == 1)) { for (f, got) in &extr { if *f < n && got.as_ref() != Some(&frame_bytes[*f as usize]) { bad = Some(("FrameExtract".into(), format!("frame_pixel_data({f}) returned {:?} bytes, frame {f} has {} bytes in {} fragment(s), Number of Frames {:?}", got.as_ref().map(|v| v.len()), frame_bytes[*f as usize].len(), groups[*f as usize], nf))); break; } } }
             match bad { None => Oracle::Holds, Some((c, d)) => Oracle::Fails { class: c, detail: d } }
         }
         _ => Oracle::Fails { class: "HelperPanic".into(), detail: "encapsulation helper panicked on non-empty frames".into() },
     } };
-    Case { coq, desc: json!({"bucket": format!("helper/{name}/{}", if res.is_some() { "ok" } else { "panic" }), "frames": frames.iter().map(|(d, fs)| json!({"data_hex": hex(d), "fragment_size": fs})).collect::<Vec<_>>(), "number_of_frames_attr": nf}),
-           key: if applicable { format!("h{kind}:{:?}", frames) } else { String::new() }, oracle }
+    Case { coq, desc: json!({"bucket": format!("helper/{name}/{}{}", if res.is_some() { "ok" } else { "panic" }, if n == 1 && res.as_ref().map_or(false, |s| s.1.len() > 1) { if nf.is_none() { "/1frame-Nfragments-noNoF" } else { "/1frame-Nfragments" } } else { "" }), "frames": frames.iter().map(|(d, fs)| json!({"data_hex": hex(d), "fragment_size": fs})).collect::<Vec<_>>(), "number_of_frames_attr": nf, "fragments_per_frame_nf": format!("{}", if n == 1 && res.as_ref().map_or(false, |s| s.1.len() > 1) { if nf.is_none() { "single-frame/multi-fragment/no-number-of-frames" } else { "single-frame/multi-fragment" } } else { "other" })}),
+           key: if applicable { format!("h{kind}:{:?}:{:?}", frames, nf) } else { String::new() }, oracle }
 }
 
 fn trans_case(r: &mut Rng, which: usize) -> Case {
@@ -198,6 +204,10 @@ pub fn cases(ctx: &Ctx) -> Vec<Case> {
     // corpus: the crate's own examples and the witnesses of the defects fixed by 1044874 / f1e186e / 59a3d8c / b60ab7b
     out.push(extract_case(&mut r, Some((vec![0, 36, 60], vec![16, 20, 24, 36], Some(3)))));   // adapters.rs test (lenient table)
     out.push(extract_case(&mut r, Some((vec![0, 52, 84], vec![16, 20, 24, 36], Some(3)))));   // the exact table for it
+    // a single frame over several fragments, Number of Frames absent / 1 (seeded change C18c)
+    out.push(helper_case_with(&mut r, 1, Some((vec![((1..=13).collect(), 4)], None))));
+    out.push(helper_case_with(&mut r, 1, Some((vec![((1..=13).collect(), 4)], Some(1)))));
+    out.push(helper_case_with(&mut r, 1, Some((vec![((1..=6).collect(), 2)], None))));
     for w in 0..6 { out.push(trans_case(&mut Rng::new(1000 + w), w as usize)); }
     {
         // 2^24 + 1 bytes in fragments of 2^20: the f32 ceiling counted 16 fragments and lost the last byte
